@@ -128,7 +128,7 @@ def generate(repo, emit, src, func_body):
                     shrink = '(n <? ns)%nat'
                 else:
                     env = {'gc->nitems': 'ni', 'gc->nslots': 'ns', 'old_size': 'ns'}
-                    shrink = '(negb %s && (n <? ns))%%nat' % _cexpr(g, env, consts)
+                    shrink = '(andb (negb %s%%nat) (n <? ns)%%nat)' % _cexpr(g, env, consts)
             except _Bad:
                 shrink = None
     emit('gc_shrink_wanted', ('Notation gc_shrink_wanted ni ns n := %s (only parsing).   (* GC_Resize_Less: rehash to n = ideal(nitems) when this holds *)'
